@@ -700,7 +700,9 @@ fn report_failure<C: Check>(o: &Opts, index: u64, v0: Violation) -> Result<Strin
         ks.dedup();
         ks.iter().map(|s| s.to_string()).collect()
     };
-    let note = if needed.is_empty() {
+    let note = if minimised_trace_is_empty(&mtrace) {
+        format!("minimised in {} re-executions; no device choice point is reached by the minimised workload (the failure does not involve the device schedule)", execs)
+    } else if needed.is_empty() {
         format!("minimised in {} re-executions; the failure is schedule-independent (occurs with every device decision VecLike)", execs)
     } else {
         format!("minimised in {} re-executions; the failure needs non-default decisions of kind(s) {:?}", execs, needed)
@@ -743,6 +745,10 @@ fn report_failure<C: Check>(o: &Opts, index: u64, v0: Violation) -> Result<Strin
             }
         }
     }
+}
+
+fn minimised_trace_is_empty(t: &[Decision]) -> bool {
+    t.is_empty()
 }
 
 /// `replay <file>`: feed the recorded workload and decisions back; exit 1 iff the same violation
